@@ -265,6 +265,7 @@ class Universe:
                 t = ch.mktype(group_id=rnd.choice(self.groups), category_id=TypeCategoryId.module, attrs=attrs,
                               effects=[eff, self.online], default_effect=eff)
                 self.types.setdefault('mh', []).append(t.id)
+                self.types.setdefault('mh_buff', []).append(t.id)
 
     CATS = {'ship': TypeCategoryId.ship, 'mh': TypeCategoryId.module, 'mm': TypeCategoryId.module,
             'ml': TypeCategoryId.module, 'rig': TypeCategoryId.module, 'drone': TypeCategoryId.drone,
@@ -696,6 +697,10 @@ class OpGen:
                     kind = rnd.choice(['mh', 'mm'])
                     ops.append(('rack', fv, RACKS[kind], 'equip', 0, kind, rnd.choice(anyu0.types[kind]), 3, None))
                 ops.append(('add', fv, 'rig', rnd.choice(anyu0.types['rig']), 1, 0))
+                if anyu0.types.get('mh_buff') and self.p.get('fleet_bias'):
+                    # a running fleet booster on every fit, and the skills that change its buff attributes
+                    ops.append(('rack', fv, 'high', 'equip', 0, 'mh', rnd.choice(anyu0.types['mh_buff']), 3, None))
+                    ops.append(('add', fv, 'skill', rnd.choice(anyu0.skill_types), 1, rnd.randint(0, 5)))
                 if getattr(anyu0, 'pymods', False):
                     for _ in range(2):
                         ops.append(('rack', fv, 'mid', 'equip', 0, 'mm', rnd.choice(anyu0.types['mm_py']), 3, 28668))
@@ -731,9 +736,9 @@ class OpGen:
             'mode': 6 if items else 0,
             'charge': 4 if mods else 0,
             'target': 10 if projectors or items else 0,
-            'level': 3,
+            'level': self.p.get('level_weight', 3),
             'source': self.p.get('switch_weight', 2) if ship_ok and self.p.get('switch', True) else 0,
-            'fleet': 4 if any(uu.fleet for uu in w.unis) else 0,
+            'fleet': self.p.get('fleet_weight', 4) if any(uu.fleet for uu in w.unis) else 0,
             'profile': 1,
             'read': 6,
             'read_all': 1,
